@@ -8,6 +8,7 @@ package rules
 import (
 	"fmt"
 	"go/token"
+	"go/types"
 
 	"golang.org/x/tools/go/ssa"
 )
@@ -91,6 +92,20 @@ func (e *optEval) eval(v ssa.Value, env map[ssa.Value]aval) aval {
 			inner := e.eval(only.Val, env)
 			return aval{kind: "cell", v: x, env: map[ssa.Value]aval{nil: inner}}
 		}
+		// a struct describing the option as data: remember what each field was given
+		if _, isStruct := structOf(x.Type()); isStruct && n == 0 {
+			fields := map[ssa.Value]aval{}
+			for _, r := range *x.Referrers() {
+				if fa, ok := r.(*ssa.FieldAddr); ok {
+					for _, r2 := range *fa.Referrers() {
+						if st, ok := r2.(*ssa.Store); ok && st.Addr == ssa.Value(fa) {
+							fields[fieldKey(fa.Field)] = e.eval(st.Val, env)
+						}
+					}
+				}
+			}
+			return aval{kind: "struct", v: x, env: fields}
+		}
 	case *ssa.UnOp:
 		if x.Op == token.MUL {
 			in := e.eval(x.X, env)
@@ -100,9 +115,18 @@ func (e *optEval) eval(v ssa.Value, env map[ssa.Value]aval) aval {
 			if in.kind == "field" {
 				return aval{kind: "load", typ: in.typ, name: in.name}
 			}
+			if in.kind == "structfield" {
+				if v, ok := in.env[fieldKey(int(in.v.(*ssa.FieldAddr).Field))]; ok {
+					return v
+				}
+				return aval{kind: "zero"}
+			}
 		}
 	case *ssa.FieldAddr:
 		in := e.eval(x.X, env)
+		if in.kind == "struct" {
+			return aval{kind: "structfield", v: x, env: in.env}
+		}
 		if in.kind == "opt" {
 			el := fieldElem(x.X.Type(), x.Field)
 			for i := 0; i < len(el); i++ {
@@ -154,11 +178,19 @@ func (e *optEval) call(call *ssa.Call, env map[ssa.Value]aval) aval {
 	return e.run(fn, ne)
 }
 
-// run walks a function body (all blocks; the helpers involved are straight-line) collecting stores into the options.
+// run walks a function body from its entry, following a branch one way when its condition is decided by the abstract
+// values (a switch over a constant tag of an option described as data) and both ways otherwise (which is then reported
+// as "the option decides at application time"); stores into the options are collected.
 func (e *optEval) run(fn *ssa.Function, env map[ssa.Value]aval) aval {
 	var ret aval
 	nret := 0
-	for _, b := range fn.Blocks {
+	seen := map[*ssa.BasicBlock]bool{}
+	var walk func(b *ssa.BasicBlock)
+	walk = func(b *ssa.BasicBlock) {
+		if seen[b] {
+			return
+		}
+		seen[b] = true
 		for _, ins := range b.Instrs {
 			switch x := ins.(type) {
 			case *ssa.Store:
@@ -166,8 +198,8 @@ func (e *optEval) run(fn *ssa.Function, env map[ssa.Value]aval) aval {
 				switch addr.kind {
 				case "field":
 					e.out.stores = append(e.out.stores, aStore{addr: addr, val: e.eval(x.Val, env), pos: x.Pos()})
-				case "cell":
-					// initialisation of a capture cell
+				case "cell", "structfield":
+					// initialisation of a capture cell / of the option's own description
 				default:
 					if _, isAlloc := stripAddr(x.Addr).(*ssa.Alloc); isAlloc {
 						continue // building a local wrapper value
@@ -183,6 +215,14 @@ func (e *optEval) run(fn *ssa.Function, env map[ssa.Value]aval) aval {
 			case *ssa.Go, *ssa.Defer, *ssa.MapUpdate, *ssa.Send:
 				e.out.other = true
 			case *ssa.If:
+				if v, ok := e.decide(x.Cond, env); ok {
+					if v {
+						walk(b.Succs[0])
+					} else {
+						walk(b.Succs[1])
+					}
+					return
+				}
 				e.out.other = true // an option that decides at application time is outside the shape
 			case *ssa.Return:
 				nret++
@@ -191,12 +231,55 @@ func (e *optEval) run(fn *ssa.Function, env map[ssa.Value]aval) aval {
 				}
 			}
 		}
+		for _, sc := range b.Succs {
+			walk(sc)
+		}
+	}
+	if len(fn.Blocks) > 0 {
+		walk(fn.Blocks[0])
 	}
 	if nret != 1 {
 		return aval{kind: "unknown"}
 	}
 	return ret
 }
+
+// decide: a comparison of two constants (after abstract evaluation).
+func (e *optEval) decide(cond ssa.Value, env map[ssa.Value]aval) (bool, bool) {
+	bo, ok := cond.(*ssa.BinOp)
+	if !ok || (bo.Op != token.EQL && bo.Op != token.NEQ) {
+		return false, false
+	}
+	l, r := e.eval(bo.X, env), e.eval(bo.Y, env)
+	kv := func(a aval) (string, bool) {
+		if a.kind == "zero" {
+			return "0", true
+		}
+		if a.kind != "const" {
+			return "", false
+		}
+		k, ok := a.v.(*ssa.Const)
+		if !ok || k.Value == nil {
+			return "", false
+		}
+		return k.Value.ExactString(), true
+	}
+	ls, ok1 := kv(l)
+	rs, ok2 := kv(r)
+	if !ok1 || !ok2 {
+		return false, false
+	}
+	return (ls == rs) == (bo.Op == token.EQL), true
+}
+
+type fieldKey int
+
+func (fieldKey) Name() string                  { return "" }
+func (fieldKey) String() string                { return "" }
+func (fieldKey) Type() types.Type              { return nil }
+func (fieldKey) Parent() *ssa.Function         { return nil }
+func (fieldKey) Referrers() *[]ssa.Instruction { return nil }
+func (fieldKey) Pos() token.Pos                { return token.NoPos }
 
 func stripAddr(v ssa.Value) ssa.Value {
 	for {
@@ -212,7 +295,7 @@ func stripAddr(v ssa.Value) ssa.Value {
 }
 
 // applyOption: the stores performed on the options when the value returned by constructor f is applied.
-func applyOption(c *Ctx, f *ssa.Function) *applied {
+func applyOption(c *Ctx, f *ssa.Function, optType string) *applied {
 	out := &applied{}
 	e := &optEval{c: c, ctor: f, out: out}
 	// the constructor itself: evaluate to the closure (its own wrapper-building stores are not option stores)
@@ -220,6 +303,37 @@ func applyOption(c *Ctx, f *ssa.Function) *applied {
 	e.out = scratch
 	env := map[ssa.Value]aval{}
 	res := e.run(f, env)
+	if res.kind == "struct" {
+		// the option is data interpreted by a method of its type that takes the options: run that method
+		al := res.v.(*ssa.Alloc)
+		var method *ssa.Function
+		ms := c.P.SSA.MethodSets.MethodSet(al.Type())
+		for i := 0; i < ms.Len(); i++ {
+			m := c.P.SSA.MethodValue(ms.At(i))
+			if m == nil || len(m.Params) != 2 || len(m.Blocks) == 0 {
+				continue
+			}
+			if _, isPtr := m.Params[1].Type().Underlying().(*types.Pointer); !isPtr {
+				continue
+			}
+			if _, isStruct := structOf(m.Params[1].Type()); !isStruct || namedOf(m.Params[1].Type()) != optType {
+				continue
+			}
+			if method != nil {
+				out.why = "the option's type has more than one method taking the options"
+				return out
+			}
+			method = m
+		}
+		if method == nil {
+			out.why = "the option is a struct whose type has no method taking the options"
+			return out
+		}
+		e.out = out
+		ne := map[ssa.Value]aval{method.Params[0]: res, method.Params[1]: {kind: "opt"}}
+		e.run(method, ne)
+		return out
+	}
 	if res.kind != "closure" {
 		out.why = fmt.Sprintf("the constructor does not return a closure wrapped as an option (%s)", res.kind)
 		return out
